@@ -1,11 +1,15 @@
 import ScriggoV.Model.ExprPP
 /-!
-Lemmas for C27: facts about the generated operator tables, the path algorithm (`reduce`,
-`closeAll`), the token machine (`run`), and the main invariant `Main`:
+Lemmas for C27, part 1: facts about the generated operator tables, the path algorithm (`reduce`,
+`closeAll`), the token machine (`run`, `settle`, `complete`, `ret`), and the three invariants
 
-running the parser over `print e` from "operand expected" with path `fs`, all of whose operators
-bind less tightly than `e`'s top operator, ends in "operand parsed" with a path that — for every
-operator that may legally follow `e` — reduces exactly as `norm e` on `fs` does.
+* `Main e` — expression position: running the parser over `print e` from "operand expected" with
+  path `fs`, all of whose operators bind less tightly than `e`'s top operator, ends (once a pending
+  type name is settled) in "operand parsed" with a path that — for every operator that may legally
+  follow `e` — reduces exactly as `norm e` on `fs` does;
+* `MainTy t` — type position (`mustBeType`): the call of `parseExpr` completes with `norm t`;
+* `Root e` — `e` is all a call of `parseExpr` parses (argument, index, bound, array length, inside
+  parentheses, whole source): at the terminating token it returns `norm e`.
 -/
 namespace ScriggoV.ExprPP
 open ScriggoV.Gen.Precedence
@@ -44,10 +48,18 @@ theorem Expr.prec?_le : ∀ {e : Expr} {c : Nat}, e.prec? = some c → c ≤ upr
   | .binary b _ _, c, h => by simp [Expr.prec?] at h; have := bprec_lt_uprec b; omega
   | .paren e, c, h => Expr.prec?_le (e := e) (by simpa [Expr.prec?] using h)
   | .ident _, _, h => by simp [Expr.prec?] at h
-  | .lit _, _, h => by simp [Expr.prec?] at h
+  | .lit _ _, _, h => by simp [Expr.prec?] at h
   | .call _ _ _, _, h => by simp [Expr.prec?] at h
   | .index _ _, _, h => by simp [Expr.prec?] at h
+  | .slicing _ _ _ _ _, _, h => by simp [Expr.prec?] at h
   | .selector _ _, _, h => by simp [Expr.prec?] at h
+  | .typeAssert _ _, _, h => by simp [Expr.prec?] at h
+  | .dflt _ _, _, h => by simp [Expr.prec?] at h
+  | .sliceT _, _, h => by simp [Expr.prec?] at h
+  | .arrayT _ _, _, h => by simp [Expr.prec?] at h
+  | .mapT _ _, _, h => by simp [Expr.prec?] at h
+  | .chanT _ _, _, h => by simp [Expr.prec?] at h
+  | .iface, _, h => by simp [Expr.prec?] at h
 
 /-- the precedence of `e`'s top operator; above every operator when `e` is not an operator -/
 def lowPrec (e : Expr) : Nat :=
@@ -64,6 +76,9 @@ theorem lowPrec_of_not_isOperator {e : Expr} (h : isOperator e = false) : lowPre
   cases hp : e.prec? with
   | none => rfl
   | some c => simp [hp] at h
+
+theorem lowPrec_of_prec?_none {e : Expr} (h : e.prec? = none) : lowPrec e = uprec + 1 := by
+  simp [lowPrec, h]
 
 /-! ### the path -/
 
@@ -112,11 +127,112 @@ theorem run_cons_of {s s' : St} {t : Token} (h : step s t = some s') (ts : List 
     run s (t :: ts) = run s' ts := by
   simp [run, h]
 
+/-- the operand-expected state of a call of `parseExpr` outside type position -/
+abbrev S0 (fs : List Frame) (K : List Ctx) : St := ⟨.operand, fs, false, K⟩
+/-- the operand-parsed state of a call of `parseExpr` outside type position -/
+abbrev SOp (x : Expr) (gs : List Frame) (K : List Ctx) : St := ⟨.operator x, gs, false, K⟩
+
+theorem complete_false (e : Expr) (p : List Frame) (K : List Ctx) : complete e p false K = SOp e p K := by
+  cases K <;> simp [complete]
+
+theorem complete_mode (e : Expr) (p : List Frame) (ty : Bool) (K : List Ctx) :
+    ∃ x, (complete e p ty K).mode = .operator x := by
+  induction K generalizing e p ty with
+  | nil =>
+    cases ty with
+    | false => exact ⟨e, by simp [complete]⟩
+    | true => exact ⟨closeAll e p, by simp [complete]⟩
+  | cons c k ih =>
+    cases ty with
+    | false => exact ⟨e, by simp [complete]⟩
+    | true =>
+      unfold complete
+      split <;> first | exact ih _ _ _ | exact ⟨_, rfl⟩
+
+theorem complete_cons (e : Expr) (f : Frame) (p : List Frame) (K : List Ctx) :
+    complete e (f :: p) true K = complete (f.plug e) p true K := by
+  cases K with
+  | nil => simp [complete, closeAll]
+  | cons c k => simp [complete, closeAll]
+
+theorem settle_of_operator {s : St} {e : Expr} (h : s.mode = .operator e) : settle s = s := by
+  simp [settle, h]
+
+theorem settle_SOp (x : Expr) (gs : List Frame) (K : List Ctx) : settle (SOp x gs K) = SOp x gs K := rfl
+
+theorem settle_complete (e : Expr) (p : List Frame) (ty : Bool) (K : List Ctx) :
+    settle (complete e p ty K) = complete e p ty K := by
+  obtain ⟨x, hx⟩ := complete_mode e p ty K
+  exact settle_of_operator hx
+
+theorem settle_settle (s : St) : settle (settle s) = settle s := by
+  cases hm : s.mode with
+  | tyIdent n =>
+    have : settle s = complete (.ident n) s.path s.ty s.ctxs := by simp [settle, hm]
+    rw [this, settle_complete]
+  | _ =>
+    have : settle s = s := by simp [settle, hm]
+    rw [this, this]
+
+/-- a token other than `.` settles a pending type name before anything else -/
+theorem step_settle {s : St} {t : Token} (ht : t ≠ .period) : step s t = step (settle s) t := by
+  obtain ⟨m, p, ty, k⟩ := s
+  cases m with
+  | tyIdent n =>
+    obtain ⟨x, hx⟩ := complete_mode (.ident n) p ty k
+    have hs : settle ⟨.tyIdent n, p, ty, k⟩ = complete (.ident n) p ty k := rfl
+    rw [hs]
+    have h2 : step (complete (.ident n) p ty k) t = stepOperator (complete (.ident n) p ty k) x t := by
+      generalize complete (.ident n) p ty k = s' at hx
+      obtain ⟨m', p', ty', k'⟩ := s'
+      simp only at hx
+      subst hx
+      rfl
+    rw [h2]
+    cases t <;> first
+      | exact absurd rfl ht
+      | (show (match (complete (.ident n) p ty k).mode with
+              | .operator e => stepOperator (complete (.ident n) p ty k) e _
+              | _ => none) = _
+         rw [hx])
+  | _ => rfl
+
+theorem run_cons_settle {s : St} {t : Token} (ht : t ≠ .period) (ts : List Token) :
+    run s (t :: ts) = run (settle s) (t :: ts) := by
+  simp only [run]
+  rw [step_settle ht]
+
+/-- tokens at which a call of `parseExpr` returns to its caller -/
+def Terminator : Token → Prop
+  | .rparen | .rbrack | .comma | .ellipsis | .colon => True
+  | _ => False
+
+theorem Terminator.ne_period {t : Token} (h : Terminator t) : t ≠ .period := by
+  intro he; subst he; exact h
+
+theorem step_SOp_terminator {t : Token} (h : Terminator t) (x : Expr) (gs : List Frame) (K : List Ctx) :
+    step (SOp x gs K) t = ret (closeAll x gs) t K := by
+  cases t <;> first | (simp [Terminator] at h; done) | simp [step, stepOperator]
+
+theorem step_S0_terminator {t : Token} (h : Terminator t) (K : List Ctx) :
+    step (S0 [] K) t = retNil t K := by
+  cases t <;> first | (simp [Terminator] at h; done) | simp [step, stepOperand]
+
 /-- the tokens of a binary operator after an operand: go up the path and become the new leaf -/
 theorem run_binToks (b : BinOp) (x : Expr) (gs : List Frame) (K : List Ctx) (rest : List Token) :
-    run ⟨.operator x, gs, K⟩ (binToks b ++ rest) =
-      run ⟨.operand, .bin b (reduce (bprec b) x gs).1 :: (reduce (bprec b) x gs).2, K⟩ rest := by
-  cases b <;> simp [binToks, run, step, binaryOf]
+    run (SOp x gs K) (binToks b ++ rest) =
+      run (S0 (.bin b (reduce (bprec b) x gs).1 :: (reduce (bprec b) x gs).2) K) rest := by
+  cases b <;> simp [binToks, run, step, stepOperator, binaryOf]
+
+theorem binToks_head_ne_period (b : BinOp) : ∃ t ts, binToks b = t :: ts ∧ t ≠ .period := by
+  cases b <;> exact ⟨_, _, rfl, by simp⟩
+
+theorem run_binToks_settle (b : BinOp) {s : St} {x : Expr} {gs : List Frame} {K : List Ctx}
+    (hs : settle s = SOp x gs K) (rest : List Token) :
+    run s (binToks b ++ rest) =
+      run (S0 (.bin b (reduce (bprec b) x gs).1 :: (reduce (bprec b) x gs).2) K) rest := by
+  obtain ⟨t, ts, hb, hne⟩ := binToks_head_ne_period b
+  rw [← run_binToks, ← hs, hb, List.cons_append, run_cons_settle hne]
 
 /-! ### print, norm on the list of arguments -/
 
@@ -125,72 +241,6 @@ theorem printArgs_single (a : Expr) : printArgs [a] = print a := by simp [printA
 theorem printArgs_cons2 (a b : Expr) (bs : List Expr) :
     printArgs (a :: b :: bs) = print a ++ .comma :: printArgs (b :: bs) := by
   rw [printArgs.eq_def]
-
-/-! ### the invariant -/
-
-/-- what parsing `print e` does, see the head of the file -/
-def Main (e : Expr) : Prop :=
-  WF e → Plain e → ∀ (fs : List Frame) (K : List Ctx), (∀ f ∈ fs, f.prec < lowPrec e) →
-    ∃ x gs, run ⟨.operand, fs, K⟩ (print e) = some ⟨.operator x, gs, K⟩ ∧
-      ∀ q, q ≤ lowPrec e → reduce q x gs = reduce q (norm e) fs
-
-/-- the same for the argument list of a call, up to and including the closing parenthesis -/
-def MainArgs (args : List Expr) : Prop :=
-  WFArgs args → PlainArgs args → args ≠ [] → ∀ (fs : List Frame) (K : List Ctx) (f : Expr) (pre : List Expr),
-    run ⟨.operand, [], .call fs f pre :: K⟩ (printArgs args ++ [.rparen]) =
-        some ⟨.operator (.call f (pre ++ normArgs args) false), fs, K⟩ ∧
-    run ⟨.operand, [], .call fs f pre :: K⟩ (printArgs args ++ [.ellipsis, .rparen]) =
-        some ⟨.operator (.call f (pre ++ normArgs args) true), fs, K⟩
-
-/-- a complete expression inside brackets: the path is empty, so the result closes to `norm e` -/
-theorem Main.closed {e : Expr} (h : Main e) (wf : WF e ∧ Plain e) (K : List Ctx) :
-    ∃ x gs, run ⟨.operand, [], K⟩ (print e) = some ⟨.operator x, gs, K⟩ ∧ closeAll x gs = norm e := by
-  obtain ⟨x, gs, hr, hq⟩ := h wf.1 wf.2 [] K (by simp)
-  refine ⟨x, gs, hr, ?_⟩
-  have := closeAll_eq_of_reduce (hq 0 (Nat.zero_le _))
-  simpa [closeAll] using this
-
-/-- an operand as the printer writes it: in parentheses (`c`) or as it is -/
-theorem operand {e : Expr} (h : Main e) (wf : WF e ∧ Plain e) (c : Bool) (fs : List Frame) (K : List Ctx)
-    (hfs : c = false → ∀ f ∈ fs, f.prec < lowPrec e) :
-    ∃ x gs, run ⟨.operand, fs, K⟩ (wrap c (print e)) = some ⟨.operator x, gs, K⟩ ∧
-      ∀ q, q ≤ (if c then uprec + 1 else lowPrec e) → reduce q x gs = reduce q (wrapP c (norm e)) fs := by
-  cases c with
-  | false =>
-    obtain ⟨x, gs, hr, hq⟩ := h wf.1 wf.2 fs K (hfs rfl)
-    exact ⟨x, gs, by simpa [wrap] using hr, by simpa [wrapP] using hq⟩
-  | true =>
-    obtain ⟨x, gs, hr, hc⟩ := h.closed wf (.paren fs :: K)
-    refine ⟨.paren (norm e), fs, ?_, fun q _ => by simp [wrapP]⟩
-    have h1 : step ⟨.operand, fs, K⟩ .lparen = some ⟨.operand, [], .paren fs :: K⟩ := rfl
-    have h2 : step ⟨.operator x, gs, .paren fs :: K⟩ .rparen = some ⟨.operator (.paren (norm e)), fs, K⟩ := by
-      simp [step, ret, hc]
-    simp only [wrap, if_true]
-    rw [run_cons_of h1, run_append_of hr, run_cons_of h2]; rfl
-
-/-- an operand that ends above every operator (in parentheses, or not an operator): the state after
-it is exact -/
-theorem operand_exact {e : Expr} (h : Main e) (wf : WF e ∧ Plain e) (c : Bool) (fs : List Frame) (K : List Ctx)
-    (hc : c = false → lowPrec e = uprec + 1) :
-    run ⟨.operand, fs, K⟩ (wrap c (print e)) = some ⟨.operator (wrapP c (norm e)), fs, K⟩ := by
-  have hfs : c = false → ∀ f ∈ fs, f.prec < lowPrec e := by
-    intro h0 f _; rw [hc h0]; exact Nat.lt_succ_of_le f.prec_le
-  obtain ⟨x, gs, hr, hq⟩ := operand h wf c fs K hfs
-  have hl : (if c = true then uprec + 1 else lowPrec e) = uprec + 1 := by
-    cases c with
-    | true => simp
-    | false => simp [hc rfl]
-  have := hq (uprec + 1) (by rw [hl]; exact Nat.le_refl _)
-  rw [reduce_top, reduce_top] at this
-  obtain ⟨rfl, rfl⟩ := Prod.mk.inj this
-  exact hr
-
-/-- after an exact state nothing is left to reduce: the conclusion of `Main` for a primary expression -/
-theorem main_of_exact {e : Expr} {fs : List Frame} {K : List Ctx}
-    (h : run ⟨.operand, fs, K⟩ (print e) = some ⟨.operator (norm e), fs, K⟩) :
-    ∃ x gs, run ⟨.operand, fs, K⟩ (print e) = some ⟨.operator x, gs, K⟩ ∧
-      ∀ q, q ≤ lowPrec e → reduce q x gs = reduce q (norm e) fs :=
-  ⟨_, _, h, fun _ _ => rfl⟩
 
 theorem needs_false_lowPrec {rule : Nat → Bool} {e : Expr} (h : needs rule e = false)
     (hr : ∀ c, rule c = false → uprec < c) : lowPrec e = uprec + 1 := by
@@ -217,162 +267,33 @@ theorem needs_false_lt {rule : Nat → Bool} {e : Expr} {p : Nat} (h : needs rul
   | none => simp; omega
   | some c => rw [hq] at h; exact hr c h
 
-/-! ### the cases -/
+theorem needs_true_isOperator {rule : Nat → Bool} {e : Expr} (h : needs rule e = true) : isOperator e = true := by
+  unfold needs at h; unfold isOperator
+  cases hq : e.prec? with
+  | none => simp [hq] at h
+  | some c => rfl
 
-theorem main_ident (n : Nat) : Main (.ident n) := by
-  intro _ _ fs K _
-  exact main_of_exact (e := .ident n) (by simp [print, norm, run, step])
+/-! ### facts about `core` -/
 
-theorem main_lit (n : Nat) : Main (.lit n) := by
-  intro _ _ fs K _
-  exact main_of_exact (e := .lit n) (by simp [print, norm, run, step])
+theorem isDflt_paren (e : Expr) : isDflt (.paren e) = isDflt e := by simp [isDflt, Expr.core]
 
-theorem main_paren (e : Expr) (ih : Main e) : Main (.paren e) := by
-  intro wf pl fs K hfs
-  have wf' : WF e := by simpa [WF] using wf
-  have pl' : Plain e := by simpa [Plain] using pl
-  rw [lowPrec_paren] at hfs
-  obtain ⟨x, gs, hr, hq⟩ := ih wf' pl' fs K hfs
-  refine ⟨x, gs, by simpa [print] using hr, ?_⟩
-  intro q hq'
-  rw [lowPrec_paren] at hq'
-  simpa [norm] using hq q hq'
-
-theorem main_unary (u : UnOp) (e : Expr) (ih : Main e) : Main (.unary u e) := by
-  intro wf pl fs K _
-  have wf' : WF e ∧ Plain e := ⟨by simpa [WF] using wf, by simpa [Plain] using pl⟩
-  have hex := operand_exact ih wf' (needs (unaryParens u.toOp uprec) e) (.un u :: fs) K
-    (fun h => needs_false_lowPrec h (fun _ hc => unaryParens_false hc))
-  have h1 : step ⟨.operand, fs, K⟩ (.op (unTok u)) = some ⟨.operand, .un u :: fs, K⟩ := by
-    simp [step, unaryOf_unTok]
-  refine ⟨_, _, by rw [print, run_cons_of h1]; exact hex, ?_⟩
-  intro q hq
-  rw [lowPrec_unary] at hq
-  rw [reduce_cons_le _ _ _ (by simpa [Frame.prec] using hq)]
-  simp [norm, Frame.plug]
-
-theorem main_binary (b : BinOp) (l r : Expr) (ihl : Main l) (ihr : Main r) : Main (.binary b l r) := by
-  intro wf pl fs K hfs
-  simp only [WF] at wf
-  simp only [Plain] at pl
-  have wfl : WF l ∧ Plain l := ⟨wf.1, pl.1⟩
-  have wfr : WF r ∧ Plain r := ⟨wf.2, pl.2⟩
-  rw [lowPrec_binary] at hfs
-  have hb := Nat.le_of_lt (bprec_lt_uprec b)
-  -- left operand
-  obtain ⟨x, gs, hrl, hql⟩ := operand ihl wfl (needs (binaryLeftParens b.toOp (bprec b)) l) fs K
-    (fun h f hf => Nat.lt_of_lt_of_le (hfs f hf)
-      (needs_false_le h (fun _ hc => binaryLeftParens_false hc) hb))
-  have hlev : bprec b ≤ (if needs (binaryLeftParens b.toOp (bprec b)) l = true then uprec + 1 else lowPrec l) := by
-    cases h : needs (binaryLeftParens b.toOp (bprec b)) l with
-    | true => simp; omega
-    | false => simpa using needs_false_le h (fun _ hc => binaryLeftParens_false hc) hb
-  have hred := hql (bprec b) hlev
-  rw [reduce_of_lt _ _ _ hfs] at hred
-  -- right operand
-  obtain ⟨y, hs, hrr, hqr⟩ := operand ihr wfr (needs (binaryRightParens b.toOp (bprec b)) r)
-    (.bin b (wrapP (needs (binaryLeftParens b.toOp (bprec b)) l) (norm l)) :: fs) K
-    (by
-      intro h f hf
-      have hlt := needs_false_lt h (fun _ hc => binaryRightParens_false hc) hb
-      rcases List.mem_cons.1 hf with rfl | hf
-      · exact hlt
-      · exact Nat.lt_trans (hfs f hf) hlt)
-  have hlev' : bprec b ≤ (if needs (binaryRightParens b.toOp (bprec b)) r = true then uprec + 1 else lowPrec r) := by
-    cases h : needs (binaryRightParens b.toOp (bprec b)) r with
-    | true => simp; omega
-    | false => simpa using Nat.le_of_lt (needs_false_lt h (fun _ hc => binaryRightParens_false hc) hb)
-  refine ⟨y, hs, ?_, ?_⟩
-  · rw [print, List.append_assoc, run_append_of hrl, run_binToks, hred]
-    exact hrr
-  · intro q hq
-    rw [lowPrec_binary] at hq
-    rw [hqr q (Nat.le_trans hq hlev'), reduce_cons_le _ _ _ (by simpa [Frame.prec] using hq)]
-    simp [norm, Frame.plug]
-
-theorem main_selector (e : Expr) (n : Nat) (ih : Main e) : Main (.selector e n) := by
-  intro wf pl fs K _
-  simp only [WF] at wf
-  simp only [Plain] at pl
-  have hex := operand_exact ih ⟨wf, pl.1⟩ false fs K (fun _ => lowPrec_of_not_isOperator pl.2)
-  simp only [wrap, wrapP, Bool.false_eq_true, if_false] at hex
-  apply main_of_exact
-  rw [print, run_append_of hex]
-  simp [run, step, norm]
-
-theorem main_index (e i : Expr) (ihe : Main e) (ihi : Main i) : Main (.index e i) := by
-  intro wf pl fs K _
-  simp only [WF] at wf
-  simp only [Plain] at pl
-  have hex := operand_exact ihe ⟨wf.1, pl.1⟩ false fs K (fun _ => lowPrec_of_not_isOperator pl.2.2)
-  simp only [wrap, wrapP, Bool.false_eq_true, if_false] at hex
-  obtain ⟨x, gs, hr, hc⟩ := ihi.closed ⟨wf.2, pl.2.1⟩ (.index fs (norm e) :: K)
-  apply main_of_exact
-  have h1 : step ⟨.operator (norm e), fs, K⟩ .lbrack = some ⟨.operand, [], .index fs (norm e) :: K⟩ := rfl
-  have h2 : step ⟨.operator x, gs, .index fs (norm e) :: K⟩ .rbrack =
-      some ⟨.operator (.index (norm e) (norm i)), fs, K⟩ := by
-    simp [step, ret, hc]
-  rw [print, run_append_of hex, run_cons_of h1, run_append_of hr, run_cons_of h2]
-  simp [run, norm]
-
-theorem mainArgs_nil : MainArgs [] := by
-  intro _ _ h; exact absurd rfl h
-
-theorem mainArgs_cons (a : Expr) (as : List Expr) (iha : Main a) (ihas : MainArgs as) :
-    MainArgs (a :: as) := by
-  intro wf pl _ fs K f pre
-  simp only [WFArgs] at wf
-  simp only [PlainArgs] at pl
-  obtain ⟨x, gs, hr, hc⟩ := iha.closed ⟨wf.1, pl.1⟩ (.call fs f pre :: K)
-  cases as with
-  | nil =>
-    rw [printArgs_single]
-    constructor
-    · rw [run_append_of hr]
-      simp [run, step, ret, hc, normArgs]
-    · rw [run_append_of hr]
-      simp [run, step, ret, hc, normArgs]
-  | cons b bs =>
-    have hcomma : step ⟨.operator x, gs, .call fs f pre :: K⟩ .comma =
-        some ⟨.operand, [], .call fs f (pre ++ [norm a]) :: K⟩ := by
-      simp [step, ret, hc]
-    obtain ⟨h1, h2⟩ := ihas wf.2 pl.2 (by simp) fs K f (pre ++ [norm a])
-    rw [printArgs_cons2]
-    constructor
-    · rw [List.append_assoc, run_append_of hr, List.cons_append, run_cons_of hcomma, h1]
-      simp [normArgs]
-    · rw [List.append_assoc, run_append_of hr, List.cons_append, run_cons_of hcomma, h2]
-      simp [normArgs]
-
-theorem main_call (f : Expr) (args : List Expr) (v : Bool) (ihf : Main f) (ihargs : MainArgs args) :
-    Main (.call f args v) := by
-  intro wf pl fs K _
-  simp only [WF] at wf
-  simp only [Plain] at pl
-  have hex := operand_exact ihf ⟨wf.1, pl.1⟩ (callParens f) fs K (fun h => by
-    apply lowPrec_of_not_isOperator
-    cases ho : isOperator f with
-    | false => rfl
-    | true => rw [pl.2.2 ho] at h; cases h)
-  apply main_of_exact
-  have h1 : step ⟨.operator (wrapP (callParens f) (norm f)), fs, K⟩ .lparen =
-      some ⟨.operand, [], .call fs (wrapP (callParens f) (norm f)) [] :: K⟩ := rfl
-  rw [print, run_append_of hex, run_cons_of h1]
-  cases args with
-  | nil =>
-    cases v with
-    | true => exact absurd rfl (wf.2.2 rfl)
-    | false => simp [printArgs, run, step, norm, normArgs]
-  | cons a as =>
-    obtain ⟨h2, h3⟩ := ihargs wf.2.1 pl.2.1 (by simp) fs K (wrapP (callParens f) (norm f)) []
-    cases v with
-    | true => simpa [norm] using h3
-    | false => simpa [norm] using h2
-
-/-- the invariant holds of every expression -/
-theorem main (e : Expr) : Main e :=
-  Expr.rec (motive_1 := Main) (motive_2 := MainArgs)
-    main_ident main_lit main_unary main_binary main_call main_index main_selector main_paren
-    mainArgs_nil mainArgs_cons e
+theorem isDflt_of_isOperator : ∀ {e : Expr}, isOperator e = true → isDflt e = false
+  | .paren e, h => by
+    rw [isDflt_paren]; exact isDflt_of_isOperator (e := e) (by simpa [isOperator, Expr.prec?] using h)
+  | .dflt _ _, h => by simp [isOperator, Expr.prec?] at h
+  | .unary _ _, _ => by simp [isDflt, Expr.core]
+  | .binary _ _ _, _ => by simp [isDflt, Expr.core]
+  | .ident _, _ => by simp [isDflt, Expr.core]
+  | .lit _ _, _ => by simp [isDflt, Expr.core]
+  | .call _ _ _, _ => by simp [isDflt, Expr.core]
+  | .index _ _, _ => by simp [isDflt, Expr.core]
+  | .slicing _ _ _ _ _, _ => by simp [isDflt, Expr.core]
+  | .selector _ _, _ => by simp [isDflt, Expr.core]
+  | .typeAssert _ _, _ => by simp [isDflt, Expr.core]
+  | .sliceT _, _ => by simp [isDflt, Expr.core]
+  | .arrayT _ _, _ => by simp [isDflt, Expr.core]
+  | .mapT _ _, _ => by simp [isDflt, Expr.core]
+  | .chanT _ _, _ => by simp [isDflt, Expr.core]
+  | .iface, _ => by simp [isDflt, Expr.core]
 
 end ScriggoV.ExprPP
